@@ -367,6 +367,9 @@ func (f *Frame) callBySig(cs calleeSig, spec *FuncSpec, args []string, res *ssa.
 		env.resultNames = append(env.resultNames, rs.At(i).Name())
 	}
 	for _, en := range spec.Ensures {
+		if strings.HasPrefix(en.Name, "assume:") {
+			vc.assumed[key+" ensures["+en.Name+"]"] = true
+		}
 		tv, err := env.tr(en.Expr)
 		if err != nil {
 			vc.errorf("%s:%d: %v", en.File, en.Line, err)
